@@ -361,6 +361,22 @@ def check_bounded(sess):
                                            'expected': ex_['expected'], 'summary': f'{k}: witness no longer fails but the region still does'})
 
 
+
+def check_default_accum(sess, module, qualname, param='accum', want='clear'):
+    """a call that omits the start accumulator is the call with the parameter's default: the default must be the text "clear"
+    (the clear-rule paths are verified above for an explicit "clear")"""
+    import ast
+    from pyvc import front
+    fn = front.load(module).func(qualname)
+    names = [a.arg for a in fn.args.args]
+    ok = False
+    if param in names:
+        j = names.index(param) - (len(names) - len(fn.args.defaults))
+        if j >= 0:
+            d = fn.args.defaults[j]
+            ok = isinstance(d, ast.Constant) and d.value == want
+    sess.add(f'{qualname}/default-of-{param}-is-"{want}"', f'{module}.{qualname}', 'ensures', [], z3.BoolVal(bool(ok)))
+
 def build(sess):
     sess.level = 'other'
     sess.trust(
@@ -378,6 +394,7 @@ def build(sess):
         check_constant_rate(sess, kind)
     quotient_rounding_lemma(sess)
     check_wrapper(sess)
+    check_default_accum(sess, MOD, 'calculate_lm')
     check_bounded(sess)
     sess.explanation = ('PROVED: O1 (cannot-move exits), O2 (legacy form mirrors: relational on the real prologue), O3 (reported '
                         'accumulator is the closed form of the recurrence at the reported duration and position, for every duration the '
